@@ -76,9 +76,66 @@ def pinv_case(ctx: Ctx, stream: str, i: int) -> None:
     ctx.case(sx(esx), True, sample=None)
 
 
+def moveaxis_expr(rng):
+    """chains around two adjacent move-axis operators over pytrees whose leaves may have DIFFERENT ranks: the second
+    is the literal inverse of the first, the inverse re-spelt with the other sign relative to the rank of one of the
+    leaves (an inverse on the leaves of that rank only), or unrelated"""
+    import jax
+    import jax.numpy as jnp
+    from furax._base.axes import MoveAxisOperator
+    from furax._base.core import CompositionOperator
+    nleaf = rng.choice([1, 2, 2, 3])
+    ranks = [rng.choice([2, 3, 3, 4]) for _ in range(nleaf)]
+    if rng.random() < 0.5:
+        ranks.sort()
+    leaves = [jax.ShapeDtypeStruct(tuple(rng.choice([2, 3]) for _ in range(r)), jnp.float32) for r in ranks]
+    s = leaves[0] if nleaf == 1 and rng.random() < 0.5 else (leaves if rng.random() < 0.6 else
+                                                              {chr(97 + k): l for k, l in enumerate(leaves)})
+    rmin = min(ranks)
+    k = rng.randint(1, min(2, rmin))
+    def spell(a, r):
+        return a
+    src = rng.sample(range(rmin), k)
+    dst = rng.sample(range(rmin), k)
+    # spell some axes negatively (same meaning on every leaf only for axes counted from the end: choose per axis)
+    def resign(axes, r):
+        return tuple((a - r) if a >= 0 else (a + r) for a in axes)
+    if rng.random() < 0.4:
+        src = [a - rmin if rng.random() < 0.5 else a for a in src]
+        dst = [a - rmin if rng.random() < 0.5 else a for a in dst]
+    m2 = MoveAxisOperator(tuple(src), tuple(dst), in_structure=s)
+    mode = rng.choice(['literal', 'respelt', 'respelt', 'other'])
+    if mode == 'literal':
+        s1, d1 = tuple(dst), tuple(src)
+    elif mode == 'respelt':
+        r = rng.choice(ranks)
+        flip = [rng.random() < 0.6 for _ in range(2 * k)]
+        if not any(flip):
+            flip[0] = True
+        s1 = tuple((a - r if a >= 0 else a + r) if f else a for a, f in zip(dst, flip[:k]))
+        d1 = tuple((a - r if a >= 0 else a + r) if f else a for a, f in zip(src, flip[k:]))
+    else:
+        s1 = tuple(rng.sample(range(rmin), k))
+        d1 = tuple(rng.sample(range(rmin), k))
+    m1 = MoveAxisOperator(s1, d1, in_structure=m2.out_structure())
+    ops = [m1, m2]
+    if rng.random() < 0.4:
+        ops.append(gen.mk_homothety(rng, s))
+    if rng.random() < 0.3:
+        ops.insert(0, gen.mk_homothety(rng, m1.out_structure()))
+    return CompositionOperator(ops), {'planted': ['moveaxis:' + mode], 'length': len(ops)}
+
+
 def one_case(ctx: Ctx, stream: str, i: int, max_len: int, depth: int, force_pattern=None) -> None:
     rng = ctx.rng(stream, i)
-    e, info = gen.gen_expression(rng, max_len=max_len, depth=depth, force_pattern=force_pattern)
+    if stream == 'moveaxis':
+        st_, built = safe(moveaxis_expr, rng)
+        if st_ != 'ok':
+            ctx.count('moveaxis:construction-' + st_)
+            return
+        e, info = built
+    else:
+        e, info = gen.gen_expression(rng, max_len=max_len, depth=depth, force_pattern=force_pattern)
     enc = Encoder()
     try:
         esx = enc.op(e)
@@ -159,6 +216,9 @@ def run(ctx: Ctx) -> None:
     for i in range(per * len(gen.PATTERNS)):
         if ctx.want('pattern', i):
             one_case(ctx, 'pattern', i, 5, 1, force_pattern=gen.PATTERNS[i % len(gen.PATTERNS)])
+    for i in range(64 if ctx.tier == 'quick' else 1500):
+        if ctx.want('moveaxis', i):
+            one_case(ctx, 'moveaxis', i, 4, 0)
     for i in range(8 if ctx.tier == 'quick' else 100):
         if ctx.want('pinv', i):
             pinv_case(ctx, 'pinv', i)
